@@ -10,6 +10,7 @@ import (
 	"encoding/binary"
 	"fmt"
 	"net"
+	"os"
 	"reflect"
 	"testing"
 
@@ -21,26 +22,26 @@ import (
 )
 
 type c11Peer struct {
-	addr    net.Addr
-	conn    *sim.PConn
-	inc     int // incarnation number at this address
-	conv    uint32
-	sid     uint32
-	cli     *kcp.UDPSession
-	writes  []int
-	wi      int
-	wcall   *sim.Call
-	wbuf    []byte
-	sent    int64
-	total   int64
-	srv     *kcp.UDPSession
-	accepts int
-	recv    int64
-	rcall   *sim.Call
-	rbuf    []byte
+	addr           net.Addr
+	conn           *sim.PConn
+	inc            int // incarnation number at this address
+	conv           uint32
+	sid            uint32
+	cli            *kcp.UDPSession
+	writes         []int
+	wi             int
+	wcall          *sim.Call
+	wbuf           []byte
+	sent           int64
+	total          int64
+	srv            *kcp.UDPSession
+	accepts        int
+	recv           int64
+	rcall          *sim.Call
+	rbuf           []byte
 	reconnectAfter int // reconnect (new conv) after this many writes, -1 never
 	closedOld      []*kcp.UDPSession
-	reached bool // at least one datagram of this incarnation reached the listener
+	reached        bool // at least one datagram of this incarnation reached the listener
 }
 
 func c11Sid(addr string, conv uint32) uint32 {
@@ -87,7 +88,7 @@ func TestC11Isolation(t *testing.T) {
 		acceptLate := rapid.SampledFrom([]int64{0, 0, 50, 2000}).Draw(rt, "acceptDelayMs")
 		nForeign := rapid.IntRange(0, 25).Draw(rt, "nForeign")
 		foreignEvery := rapid.IntRange(1, 5).Draw(rt, "foreignEvery")
-		var foreignPassed, foreignTotal, maxConcurrent, reconnected int
+		var foreignPassed, foreignTotal, maxConcurrent, reconnected, staleFlushed int
 		rapid.SyncTest(rt, func(rt *rapid.T) {
 			s := sim.NewSessSim(0, 11)
 			s.DefaultDelay = 5
@@ -163,6 +164,30 @@ func TestC11Isolation(t *testing.T) {
 			}
 			strangerAddr := &net.UDPAddr{IP: net.IPv4(10, 9, 9, 9), Port: 999}
 			dgCount := 0
+			if os.Getenv("VERIF_TRACE") != "" {
+				s.OnDeliver = func(to string, from net.Addr, data []byte) {
+					_, pl, err := crypto.Open(data)
+					if err != nil {
+						fmt.Printf("t=%d DELIVER %s -> %s %d bytes: %v\n", s.Now(), from, to, len(data), err)
+						return
+					}
+					fr, err := wire.ParseFrame(pl, fec[0] > 0)
+					desc := fmt.Sprintf("seq=%d type=%#x", fr.SeqID, fr.Type)
+					for _, sg := range fr.Segments {
+						desc += fmt.Sprintf(" [cmd=%d conv=%#x sn=%d una=%d len=%d]", sg.Cmd, sg.Conv, sg.Sn, sg.Una, len(sg.Data))
+					}
+					fmt.Printf("t=%d DELIVER %s -> %s %d bytes: %s err=%v\n", s.Now(), from, to, len(data), desc, err)
+					for _, p := range peers {
+						if p.cli != nil {
+							p.cli.VerifWithKCP(func(k *kcp.KCP) {
+								st := k.VerifState(true)
+								fmt.Printf("      client conv=%#x una=%d nxt=%d sndbuf=%v acked=%v sndq=%d recovered=%d\n", st.Conv, st.SndUna, st.SndNxt, st.SndBufSn, st.SndBufAcked, st.SndQueue, kcp.DefaultSnmp.Copy().FECRecovered)
+							})
+							fmt.Printf("      client fec %+v\n", p.cli.VerifFEC())
+						}
+					}
+				}
+			}
 			s.OnSent = func(d *sim.Sent, from, to string, f *sim.Fate) error {
 				if to == laddr.String() {
 					if p := byAddr(from); p != nil && f.Copies > 0 {
@@ -260,7 +285,28 @@ func TestC11Isolation(t *testing.T) {
 			var accept *sim.Call
 			acceptFrom := acceptLate
 			steps := 0
-			horizon := int64(900_000)
+			// stall detection by progress, not by a fixed time: see coreAllowance in c02_test.go
+			var lastSig, lastProgressAt int64
+			allowance := func() int64 {
+				var maxRto int64 = 200
+				look := func(x *kcp.UDPSession) {
+					if x == nil {
+						return
+					}
+					x.VerifWithKCP(func(k *kcp.KCP) {
+						st := k.VerifState(true)
+						maxRto = max(maxRto, int64(st.RxRto))
+						for _, r := range st.SndBufRto {
+							maxRto = max(maxRto, int64(r))
+						}
+					})
+				}
+				for _, p := range peers {
+					look(p.cli)
+					look(p.srv)
+				}
+				return 2*(maxRto+60_000) + 360_000
+			}
 			for s.Err() == nil {
 				s.Quiesce()
 				issued := false
@@ -361,7 +407,15 @@ func TestC11Isolation(t *testing.T) {
 					if p.reconnectAfter >= 0 && p.inc == 1 && p.wi == p.reconnectAfter && p.wcall == nil && p.recv == p.total && p.srv != nil {
 						p.cli.Close()
 						p.closedOld = append(p.closedOld, p.srv) // the listener closes it when the new conversation starts
-						s.SleepTo(s.Now() + 500)               // let stale datagrams of the old conversation die out
+						s.SleepTo(s.Now() + 500)                 // let stale datagrams of the old conversation die out
+						if fec[0] > 0 && hx.IsKnown(c11KeyStaleFEC) {
+							// listed finding: FEC packets carry no conversation id; whatever of the old
+							// conversation is still queued at the socket would enter the new session's
+							// decoder. The class is left out by emptying the socket.
+							if p.conn.Flush() > 0 {
+								staleFlushed++
+							}
+						}
 						connect(p)
 						reconnected++
 						issued = true
@@ -381,7 +435,21 @@ func TestC11Isolation(t *testing.T) {
 				if done {
 					break
 				}
-				if !s.Step(horizon) {
+				var sig int64
+				for _, p := range peers {
+					sig += p.recv*31 + p.sent*17 + int64(p.accepts)*7 + int64(p.inc)*3 + int64(p.wi)
+					for _, x := range []*kcp.UDPSession{p.cli, p.srv} {
+						if x != nil {
+							x.VerifWithKCP(func(k *kcp.KCP) { st := k.VerifState(false); sig += int64(st.SndUna)*5 + int64(st.RcvNxt)*11 })
+						}
+					}
+				}
+				if sig != lastSig {
+					lastSig, lastProgressAt = sig, s.Now()
+				} else if s.Now()-lastProgressAt > allowance() {
+					break // nothing has moved for longer than any retransmission timer in force: stalled
+				}
+				if !s.Step(s.Now() + 3600_000) {
 					break
 				}
 			}
@@ -391,7 +459,12 @@ func TestC11Isolation(t *testing.T) {
 						s.Fail("peer %s conv %#x (incarnation %d): datagrams reached the listener but Accept returned it %d times", p.addr, p.conv, p.inc, p.accepts)
 					}
 					if p.recv < p.total {
-						s.Fail("session of peer %s conv %#x stalled: %d of %d bytes read after 15 min of virtual time", p.addr, p.conv, p.recv, p.total)
+						var cs, ss kcp.VerifKCPState
+						p.cli.VerifWithKCP(func(k *kcp.KCP) { cs = k.VerifState(true) })
+						if p.srv != nil {
+							p.srv.VerifWithKCP(func(k *kcp.KCP) { ss = k.VerifState(true) })
+						}
+						s.Fail("session of peer %s conv %#x stalled: %d of %d bytes read, nothing has moved on any session since %d ms (now %d ms); writes done %d/%d, write blocked=%v, reader blocked=%v\nclient core %+v\nserver core %+v fec %+v", p.addr, p.conv, p.recv, p.total, lastProgressAt, s.Now(), p.wi, len(p.writes), p.wcall != nil, p.rcall != nil, cs, ss, p.srv.VerifFEC())
 					}
 				}
 			}
@@ -412,6 +485,9 @@ func TestC11Isolation(t *testing.T) {
 		if fec[0] > 0 {
 			cl = append(cl, "fec_on")
 		}
+		for i := 0; i < staleFlushed; i++ {
+			rec.Exclude(c11KeyStaleFEC)
+		}
 		rec.Add("n_foreign_injected", int64(foreignTotal))
 		rec.Case(hx.Hash64(cipher, fec, plans, acceptLate, nForeign, foreignEvery), maxConcurrent >= 3 && foreignPassed > 0, cl...)
 		if rec.WantSample() {
@@ -422,4 +498,44 @@ func TestC11Isolation(t *testing.T) {
 			rec.Sample(map[string]any{"cipher": cipher, "fec": fec, "peers": npeers, "writes": w, "foreign_injected": foreignTotal, "accept_delay_ms": acceptLate, "reconnected": reconnected})
 		}
 	})
+}
+
+const c11KeyStaleFEC = "C11:stale-fec-packets-of-previous-conversation-enter-new-session"
+
+// TestC11KnownStaleFEC is the reproducer of the listed finding c11KeyStaleFEC:
+// datagrams of a previous conversation that are still queued at the socket
+// when a new session (new conversation id) starts on it are taken into the new
+// session's FEC decoder - FEC packets carry no conversation id.
+func TestC11KnownStaleFEC(t *testing.T) {
+	rec := hx.NewRecorder(t)
+	buffered := 0
+	bubble(t, func() {
+		s := sim.NewSessSim(0, 11)
+		s.DefaultDelay = 1
+		laddr := &net.UDPAddr{IP: net.IPv4(10, 0, 0, 1), Port: 1}
+		caddr := &net.UDPAddr{IP: net.IPv4(10, 0, 0, 2), Port: 2}
+		lconn, cconn := s.Net.Listen(laddr), s.Net.Listen(caddr)
+		srv1, _ := kcp.NewConn3(100, caddr, nil, 3, 2, lconn)
+		srv1.SetNoDelay(1, 10, 2, 1)
+		cli1, _ := kcp.NewConn3(100, laddr, nil, 3, 2, cconn)
+		cli1.Close() // the first client conversation is over; its socket stays
+		s.SleepTo(5)
+		srv1.Write([]byte("late data of conversation 100")) // two datagrams of group 0 ...
+		srv1.Write([]byte("more late data"))
+		srv1.Write([]byte("and more")) // (the closed session's read loop swallows the first datagram on its way out)
+		s.SleepTo(20) // ... now waiting in the client socket's receive queue
+		cli2, _ := kcp.NewConn3(200, laddr, nil, 3, 2, cconn)
+		s.SleepTo(40)
+		buffered = cli2.VerifFEC().ShardPackets
+		cli2.Close()
+		srv1.Close()
+		lconn.Close()
+		cconn.Close()
+		s.Drain(2000)
+	})
+	rec.Case(1, true, "reproducer")
+	rec.Case(2, true, "reproducer")
+	if buffered > 0 {
+		rec.Finding(c11KeyStaleFEC, fmt.Sprintf("a session started for conversation 200 holds %d FEC packet(s) of conversation 100 in its decoder (left in the socket's receive queue); together with one genuine packet of the same group they are Reed-Solomon 'reconstructed' into a packet that is fed to the core", buffered))
+	}
 }
